@@ -902,16 +902,16 @@ Section Prune.
   Variable vlt : V -> V -> bool.
   Variable vinf : V.
   Hypothesis SW : StrictWeak vlt.
-  Hypothesis vinf_top : forall v, vlt vinf v = false.
 
   (* for a filtered simplicial complex with a monotone filtration, pruning keeps exactly the sublevel set *)
   Theorem prune_sublevel : forall (K : cplx V) f, wf K -> closed K -> monotone vlt K ->
+    (forall s v, In (s, v) K -> vlt vinf v = false) ->
     forall s v, In (s, v) (fst (prune_above_filtration vlt vinf K f)) <-> In (s, v) K /\ vlt f v = false.
   Proof.
-    intros K f WF CL M s v. unfold prune_above_filtration.
+    intros K f WF CL M TOP s v. unfold prune_above_filtration.
     destruct (veq vlt f vinf) eqn:EI; cbn [fst].
     - apply (veq_true V vlt) in EI. destruct EI as [E1 E2]. split; [|tauto]. intros H. split; [exact H|].
-      eapply (sw_negtrans vlt SW); [exact E1 | apply vinf_top].
+      eapply (sw_negtrans vlt SW); [exact E1 | eapply TOP; exact H].
     - rewrite filter_In. cbn [fst]. split; intros [H1 H2]; (split; [exact H1|]).
       + apply negb_true_iff in H2. destruct (vlt f v) eqn:E; [|reflexivity]. exfalso.
         assert (X : pruned vlt K f s = true).
@@ -953,14 +953,15 @@ Section Prune.
   Qed.
 
   Theorem prune_flag_sublevel : forall (K : cplx V) f, wf K -> closed K -> monotone vlt K ->
+    (forall s v, In (s, v) K -> vlt vinf v = false) ->
     (snd (prune_above_filtration vlt vinf K f) = true <-> exists s v, In (s, v) K /\ vlt f v = true).
   Proof.
-    intros K f WF CL M. split.
+    intros K f WF CL M TOP. split.
     - intros H. destruct (prune_above_filtration vlt vinf K f) as [K' b] eqn:E. cbn [snd] in H. subst b.
       assert (NE : K' <> K). { intros X. pose proof (prune_flag K f) as P. rewrite E in P. cbn [fst snd] in P. apply P in X. discriminate. }
       (* some element of K is not in K' *)
       assert (Sub : forall a, In a K' -> In a K).
-      { intros [s v] Ia. pose proof (prune_sublevel K f WF CL M s v) as P. rewrite E in P. cbn [fst] in P. apply P. exact Ia. }
+      { intros [s v] Ia. pose proof (prune_sublevel K f WF CL M TOP s v) as P. rewrite E in P. cbn [fst] in P. apply P. exact Ia. }
       assert (FI : K' = filter (fun p => negb (pruned vlt K f (fst p))) K \/ K' = K).
       { unfold prune_above_filtration in E. destruct (veq vlt f vinf); inversion E; auto. }
       destruct FI as [FI|FI]; [|contradiction].
@@ -969,10 +970,148 @@ Section Prune.
       cbn beta in EX.
       destruct EX as ([s v] & Ia & Ha). exists s, v. split; [exact Ia|].
       destruct (vlt f v) eqn:Ef; [reflexivity|]. exfalso.
-      assert (X : In (s, v) K') by (pose proof (prune_sublevel K f WF CL M s v) as P; rewrite E in P; cbn [fst] in P; apply P; auto).
+      assert (X : In (s, v) K') by (pose proof (prune_sublevel K f WF CL M TOP s v) as P; rewrite E in P; cbn [fst] in P; apply P; auto).
       rewrite FI in X. apply filter_In in X. destruct X as [_ X]. congruence.
     - intros (s & v & Ia & Hlt). destruct (snd (prune_above_filtration vlt vinf K f)) eqn:E; [reflexivity|]. exfalso.
-      apply prune_flag in E. pose proof (prune_sublevel K f WF CL M s v) as P. rewrite E in P.
+      apply prune_flag in E. pose proof (prune_sublevel K f WF CL M TOP s v) as P. rewrite E in P.
       destruct P as [P _]. destruct (P Ia) as [_ X]. congruence.
   Qed.
 End Prune.
+
+(* ================================================================== helpers for the non-vacuity examples *)
+Lemma nonempty_subs_complete : forall t s, subseq t s -> t <> [] -> In t (nonempty_subs s).
+Proof.
+  intros t s H. induction H as [|x t s H IH|x t s H IH]; intros N.
+  - congruence.
+  - cbn [nonempty_subs]. destruct t as [|y t']; [left; reflexivity|]. right. apply in_or_app. left. apply in_map. apply IH. discriminate.
+  - cbn [nonempty_subs]. right. apply in_or_app. right. apply IH. exact N.
+Qed.
+
+Definition closedb {V : Type} (K : cplx V) : bool :=
+  forallb (fun s => forallb (fun t => existsb (simplex_eqb t) (map fst K)) (nonempty_subs s)) (map fst K).
+
+Lemma closedb_closed : forall (V : Type) (K : cplx V), closedb K = true -> closed K.
+Proof.
+  intros V K H s t Hs St Nt. unfold closedb in H. rewrite forallb_forall in H. specialize (H s Hs).
+  rewrite forallb_forall in H. specialize (H t (nonempty_subs_complete t s St Nt)).
+  apply existsb_exists in H. destruct H as (u & Iu & Eu). apply simplex_eqb_eq in Eu. subst. exact Iu.
+Qed.
+
+Fixpoint incrb (s : simplex) : bool :=
+  match s with
+  | [] => true
+  | x :: t => forallb (Z.ltb x) t && incrb t
+  end.
+Lemma incrb_incr : forall s, incrb s = true -> incr s.
+Proof.
+  unfold incr. induction s as [|x t IH]; intros H; [constructor|]. cbn [incrb] in H. apply andb_true_iff in H. destruct H as [H1 H2].
+  constructor; [apply IH; exact H2|]. rewrite forallb_forall in H1. apply Forall_forall. intros y Hy. specialize (H1 y Hy). lia.
+Qed.
+
+Fixpoint nodupb (l : list simplex) : bool :=
+  match l with
+  | [] => true
+  | s :: l' => negb (existsb (simplex_eqb s) l') && nodupb l'
+  end.
+Lemma nodupb_nodup : forall l, nodupb l = true -> NoDup l.
+Proof.
+  induction l as [|s l IH]; intros H; [constructor|]. cbn [nodupb] in H. apply andb_true_iff in H. destruct H as [H1 H2].
+  constructor; [|apply IH; exact H2]. intros X. apply negb_true_iff in H1.
+  assert (Y : existsb (simplex_eqb s) l = true) by (apply existsb_exists; exists s; split; [exact X | apply simplex_eqb_refl]). congruence.
+Qed.
+
+Definition wfb {V : Type} (K : cplx V) : bool :=
+  nodupb (map fst K) && forallb (fun s => match s with [] => false | _ => incrb s end) (map fst K).
+Lemma wfb_wf : forall (V : Type) (K : cplx V), wfb K = true -> wf K.
+Proof.
+  intros V K H. unfold wfb in H. apply andb_true_iff in H. destruct H as [H1 H2]. split; [apply nodupb_nodup; exact H1|].
+  intros s Hs. rewrite forallb_forall in H2. specialize (H2 s Hs). destruct s as [|x t]; [discriminate|]. split; [discriminate | apply incrb_incr; exact H2].
+Qed.
+
+Definition monotoneb {V : Type} (vlt : V -> V -> bool) (K : cplx V) : bool :=
+  forallb (fun p => forallb (fun t => match lookup K t with Some vt => negb (vlt (snd p) vt) | None => true end) (nonempty_subs (fst p))) K.
+Lemma monotoneb_monotone : forall (V : Type) (vlt : V -> V -> bool) (K : cplx V), wf K -> monotoneb vlt K = true -> monotone vlt K.
+Proof.
+  intros V vlt K WF H s t vs vt Ls Lt St. unfold monotoneb in H. rewrite forallb_forall in H.
+  specialize (H (s, vs) (lookup_in K s vs Ls)). cbn [fst snd] in H. rewrite forallb_forall in H.
+  assert (Nt : t <> []). { destruct WF as [_ W]. apply W. eapply lookup_key; exact Lt. }
+  specialize (H t (nonempty_subs_complete t s St Nt)). rewrite Lt in H. apply negb_true_iff in H. exact H.
+Qed.
+
+(* ================================================================== the cache filtration_vect_ *)
+Section Cache.
+  Variable V : Type.
+  Variable vlt : V -> V -> bool.
+  Variable vinf : V.
+
+  (* after clear_filtration the next filtration_simplex_range recomputes the order from the current complex *)
+  Lemma range_after_clear : forall st : state V,
+    snd (filtration_simplex_range vlt vinf (clear_filtration st)) =
+    with_values (fst st) (initialize_filtration vlt vinf false (fst st)).
+  Proof. intros [K c]. reflexivity. Qed.
+
+  (* the three mutators drop the cache whenever they report a change; extend_filtration always *)
+  Lemma mfnd_drops_cache : forall st : state V, snd (op_mfnd vlt st) = true -> snd (fst (op_mfnd vlt st)) = [].
+  Proof. intros [K c]. unfold op_mfnd. cbn [fst snd]. intros H. rewrite H. reflexivity. Qed.
+  Lemma prune_drops_cache : forall f (st : state V), snd (op_prune vlt vinf f st) = true -> snd (fst (op_prune vlt vinf f st)) = [].
+  Proof. intros f [K c]. unfold op_prune. cbn [fst snd]. intros H. rewrite H. reflexivity. Qed.
+
+  (* when make_filtration_non_decreasing reports no change the complex is literally unchanged, so keeping the cache is sound *)
+  Lemma relax_f_cases : forall (K : cplx V) c0 m0 b,
+    relax_f V vlt K (c0, m0) b = (c0, m0) \/ exists fb, relax_f V vlt K (c0, m0) b = (fb, true).
+  Proof.
+    intros K c0 m0 b. unfold relax_f. cbn [fst]. destruct (lookup K b) as [fb|]; [|left; reflexivity].
+    destruct (vlt c0 fb); [right; exists fb; reflexivity | left; reflexivity].
+  Qed.
+
+  Lemma relax_fold_true : forall (K : cplx V) bs c, snd (fold_left (relax_f V vlt K) bs (c, true)) = true.
+  Proof.
+    intros K. induction bs as [|b bs IH]; intros c; [reflexivity|]. cbn [fold_left].
+    destruct (relax_f_cases K c true b) as [E|(fb & E)]; rewrite E; apply IH.
+  Qed.
+
+  Lemma relax_fold_unchanged : forall K bs c0 m0, snd (fold_left (relax_f V vlt K) bs (c0, m0)) = false ->
+    fst (fold_left (relax_f V vlt K) bs (c0, m0)) = c0.
+  Proof.
+    intros K. induction bs as [|b bs IH]; intros c0 m0 H; [reflexivity|]. cbn [fold_left] in *.
+    destruct (relax_f_cases K c0 m0 b) as [E|(fb & E)]; rewrite E in *.
+    - apply (IH c0 m0 H).
+    - rewrite relax_fold_true in H. discriminate.
+  Qed.
+
+  Lemma update_same : forall (K : cplx V) s v, lookup K s = Some v -> update K s v = K.
+  Proof.
+    induction K as [|[t w] K IH]; intros s v H; [reflexivity|]. cbn [lookup] in H. cbn [update].
+    destruct (simplex_eqb t s); [inversion H; reflexivity | rewrite IH; [reflexivity | exact H]].
+  Qed.
+
+  Lemma mfnd_step_unchanged : forall K m s, snd (mfnd_step vlt (K, m) s) = false -> mfnd_step vlt (K, m) s = (K, false).
+  Proof.
+    intros K m s H. destruct s as [|x [|y t]]; cbn [mfnd_step fst snd] in *; try (rewrite H; reflexivity).
+    destruct (lookup K (x :: y :: t)) as [cur|] eqn:L; cbn [fst snd] in *; [|rewrite H; reflexivity].
+    apply orb_false_iff in H. destruct H as [H1 H2]. subst m. rewrite H2. f_equal.
+    rewrite (relax_unfold V vlt) in *. rewrite (relax_fold_unchanged _ _ _ _ H2). apply update_same. exact L.
+  Qed.
+
+  Lemma mfnd_fold_flag_mono : forall order K, snd (fold_left (mfnd_step vlt) order (K, true)) = true.
+  Proof.
+    induction order as [|s order IH]; intros K; [reflexivity|]. cbn [fold_left].
+    assert (E : exists K', mfnd_step vlt (K, true) s = (K', true)).
+    { destruct s as [|x [|y t]]; cbn [mfnd_step fst snd]; eauto. destruct (lookup K (x :: y :: t)); eauto. }
+    destruct E as (K' & E). rewrite E. apply IH.
+  Qed.
+
+  Theorem mfnd_unchanged_when_false : forall K0 : cplx V,
+    snd (make_filtration_non_decreasing vlt K0) = false -> fst (make_filtration_non_decreasing vlt K0) = K0.
+  Proof.
+    intros K0. unfold make_filtration_non_decreasing, mfnd_over. generalize (traversal K0) as order. intros order. revert K0.
+    induction order as [|s order IH]; intros K0 H; [reflexivity|]. cbn [fold_left] in *.
+    destruct (mfnd_step vlt (K0, false) s) as [K1 m1] eqn:E. destruct m1.
+    - rewrite mfnd_fold_flag_mono in H. discriminate.
+    - assert (E' : mfnd_step vlt (K0, false) s = (K0, false)) by (apply mfnd_step_unchanged; rewrite E; reflexivity).
+      rewrite E in E'. inversion E'; subst. apply IH. exact H.
+  Qed.
+End Cache.
+
+Lemma zltb_strict_weak : StrictWeak Z.ltb.
+Proof. constructor; intros; lia. Qed.
